@@ -174,6 +174,32 @@ def run(ctx):
             fa_fail.append({"group": j["groups"]["g"], "rows": j["files"]["f"], "method": o["method"],
                             "problem": "fail_all() executed by the last member: that member must be invalid, the earlier ones valid, the group invalid",
                             "members_valid": [m["is_valid"] for m in o["members"]], "results_manager_is_valid": o["rm_is_valid"], "manifest_all_valid": o["inspect"].get("manifest_all_valid")})
+    # fail() executed by one member of a group on a line that is not the last (serial and breadth-first runs): the verdict is sticky —
+    # that member is invalid when the run ends, failed() answers yes from that line on, the others are valid, the group is invalid
+    fb_jobs = []
+    for k in range(18 if quick else 200):
+        n = rng.choice([1, 2, 3])
+        w = rng.randrange(n)
+        nrec = rng.randrange(3, 8)
+        line = rng.randrange(0, nrec - 1)
+        ms = [(f'~id: m{j}~ $[*][ eq(line_number(), {line}) -> fail() push("fs", failed()) ]' if j == w else f'~id: m{j}~ $[*][ push("fs", failed()) ]') for j in range(n)]
+        fb_jobs.append({"id": 200000 + k, "w": w, "line": line, "nrec": nrec, "files": {"f": [["id", "a"]] + [[f"r{j}", str(j)] for j in range(1, nrec)]}, "groups": {"g": ms},
+                        "runs": [{"method": groups.METHODS[k % len(groups.METHODS)], "pathsname": "g", "filename": "f", "new_instance": True}], "inspect": agg_inspect})
+    fb_res = pmap(ctx, groups.run_history, fb_jobs, chunksize=2)
+    for j, r in zip(fb_jobs, fb_res):
+        o = (r.get("runs") or [None])[0]
+        if r["setup_exc"] or not o or o["exc"] or not o["members"]:
+            fa_fail.append({"group": j["groups"]["g"], "rows": j["files"]["f"], "problem": "the run raised", "impl": {"setup": r["setup_exc"], "exc": o and o["exc"]}})
+            continue
+        want_valid = [k2 != j["w"] for k2 in range(len(o["members"]))]
+        want_fs = [([False] * j["line"] + [True] * (j["nrec"] - j["line"])) if k2 == j["w"] else [False] * j["nrec"] for k2 in range(len(o["members"]))]
+        got_fs = [json.loads(m["vars"]).get("fs") for m in o["members"]]
+        if [m["is_valid"] for m in o["members"]] != want_valid or [m["result_is_valid"] for m in o["members"]] != want_valid or o["rm_is_valid"] \
+                or o["inspect"].get("manifest_all_valid") or got_fs != want_fs:
+            fa_fail.append({"group": j["groups"]["g"], "rows": j["files"]["f"], "method": o["method"],
+                            "problem": f"fail() executed by member {j['w']} on line {j['line']} of {j['nrec']}: that member must end invalid (failed() yes from that line on), the others valid, the group invalid",
+                            "members_valid": [m["is_valid"] for m in o["members"]], "results_valid": [m["result_is_valid"] for m in o["members"]], "failed_per_line": got_fs,
+                            "results_manager_is_valid": o["rm_is_valid"], "manifest_all_valid": o["inspect"].get("manifest_all_valid")})
     gres = pmap(ctx, groups.run_history, gjobs, chunksize=4)
     alits, aidx = [], []
     for gi, (j, r) in enumerate(zip(gjobs, gres)):
@@ -226,7 +252,7 @@ def run(ctx):
         ctx.violation("correspondence", {"what": "correspondence Match/Ctl.v / Mgr/Aggregate.v vs the implementation no longer checks (Harness/C04Cmp); theorems C04_* are about the model only",
                                          "disagreeing_case": case}, no_input=True)
     ctx.coverage.update({
-        "fail_all_groups": len(fa_jobs), "evaluations": len(jobs) + len(ejobs) + len(gjobs) + len(fa_jobs),
+        "fail_all_groups": len(fa_jobs), "sticky_fail_groups": len(fb_jobs), "evaluations": len(jobs) + len(ejobs) + len(gjobs) + len(fa_jobs) + len(fb_jobs),
         "distinct_nontrivial": len({repr(j[:4]) for j, o in zip(jobs, res) if not o["exc"] and o.get("valid") is False}) + sum(1 for k, gi in enumerate(aidx) if not gres[gi]["runs"][0]["rm_is_valid"]),
         "rule": "A: fail()/fail_and_stop() in 9 conditional/unconditional forms at every position among 1-3 pushing components, firing line 0..5, 70% with a valid()/failed() probe, 25% with a "
                 "skip()/stop() that may pre-empt the fail, random scan window / file with blanks / return mode; B: errors of 3 kinds under every policy without raise/quiet, with and without "
